@@ -11,6 +11,8 @@ CONSTANTS
     ResetMemoAtLastRelease = TRUE
     DropOnlyAtZero = TRUE
     DoneDuplicate = TRUE
+    ResolveDetached = TRUE
+    Cancels = TRUE
 SPECIFICATION MonSpec
 INVARIANTS MonCountNonNegative MonHeldWhileCached MonHandlesMatchLayers MonOnlyOwnCached MonCountMatchesUses
 PROPERTIES UnknownDigestFails MonLookupSucceedsIffTocInImage MonSuccessMeansCached MonNeverDoneWhileUsed MonUsedLayerStays MonLastReleaseDropsBookkeeping MonNextLookupResolvesAgain
